@@ -18,7 +18,7 @@ CHECKS = [
     dict(property_id="C04",
          text="Decides the dataflow shape of every sampler-driven Condition.forward: one draw per sampler, model/data/residual share one tracked draw, "
               "residual mapping complete and name-keyed, reduce(error(residual)), documented (error, reduce) per class, SquaredError axis, data-condition "
-              "norms with the root last, sibling initialisation. Loss values and user callables are NOT decided.",
+              "norms with the root last, sibling initialisation, and - shared from C03/C08/C13 - the input re-ordering of models, the by-name argument mapping of residual/data functions and the structure of the differential operators. Loss values and user callables are NOT decided.",
          note=_T + "User residual/data functions are opaque.",
          technique=_SA + "path enumeration with evaluation identities (same-origin provenance), structural matching of expanded expressions"),
     dict(property_id="C05",
